@@ -353,6 +353,9 @@ ZOO = [
      {"key": "C", "meter": [0, 0], "entries": [_e("1", [["E", 4]], "note"), _e("1", [["D", 4], ["F", 4], ["A", 4]], "nc"), _e("2", None), _e("1", [["B", 4]], "text")]},
      {"key": "C", "meter": [2, 4], "entries": [_e("2", [["A", 3]], "note")]},
      {"key": "F", "meter": [0, 0], "entries": [_e("4", [["Bb", 4], ["D", 5]], "list")]}],
+    # 17: a track that carries the percussion instrument (its notes are notes like any others)
+    [{"key": "C", "meter": [4, 4], "instrument": "Percussion", "entries": [_e("4", [["C", 2]], "note"), _e("4", [["F#", 2], ["A#", 2]], "nc"), _e("2", None)]},
+     {"key": "C", "meter": [4, 4], "entries": [_e("1", [["D", 2], ["E", 3]], "nc")]}],
     # 8: built with Track.from_chords from a sheet that repeats its chord symbols (every occurrence is its own chord)
     [{"key": "C", "meter": [4, 4], "entries": [_e("1", [["C", 4], ["E", 4], ["G", 4]], "nc")], "from_chords": ["C", "Am", "C", "Am"]},
      {"key": "C", "meter": [4, 4], "entries": [_e("1", [["A", 4], ["C", 5], ["E", 5]], "nc")]},
@@ -406,7 +409,10 @@ class _OwnContainer(NoteContainer):
 def build(desc):
     """-> (real Track, model).  model[b][e] = None | [[letter, pitch number], ...]"""
     t = Track()
-    if desc and desc[0].get("instrument") == "Piano":
+    if desc and desc[0].get("instrument") == "Percussion":
+        from mingus.containers.instrument import MidiPercussionInstrument
+        t = Track(MidiPercussionInstrument())
+    elif desc and desc[0].get("instrument") == "Piano":
         from mingus.containers.instrument import Piano
         t = Track(Piano())
     model = []
@@ -825,7 +831,7 @@ def explore(ctx):
         depth = ctx.pick(3, 4)
         aset = ctx.pick("narrow", "narrow")
         # quick: the chord-only and the tuplet-value track (many notes, nothing structurally new) go one level less deep
-        depths = {i: (depth - 1 if (ctx.quick and i in (1, 3, 6, 7, 8, 9, 10, 11, 12, 13, 14, 15, 16)) else depth) for i in range(len(ZOO))}
+        depths = {i: (depth - 1 if (ctx.quick and i in (1, 3, 6, 7, 8, 9, 10, 11, 12, 13, 14, 15, 16, 17)) else depth) for i in range(len(ZOO))}
         ctx.bound("history_depth", {str(i): d for i, d in depths.items()})
         ctx.bound("history_actions", {"set": aset, "targets": {str(i): action_targets(i, aset) for i in range(len(ZOO))}, "ops": bfs_ops()})
         for i in range(len(ZOO)):
